@@ -92,6 +92,8 @@ class C17(Property):
     # ------------------------------------------------------------------ generation
     def gen_aftermath(self, world, step, rng):
         """a write of an Mdoc object failed: the object is still in the caller's hands - looked at and written again"""
+        if rng.chance(0.5):
+            yield from Property.gen_aftermath(self, world, step, rng)      # the plain retry
         if step["op"] == "mdoc_write" and step.get("h") in world.session(step["sess"]):
             yield {"op": "mdoc_inspect", "sess": step["sess"], "h": step["h"]}
             yield {"op": "mdoc_write", "sess": step["sess"], "h": step["h"], "out": rng.pick([OUTS[0], OUTS[3]]),
